@@ -3,6 +3,7 @@
    dataset and the matplotlib calls.  That matplotlib draws the arrays it is handed, and that
    the model matches the code, is established by differential testing only (harness/props/c17.py). *)
 From XV Require Import Prelude PlotSeries PlotSeriesProofs.
+From XV Require PlotFlow GenPlot BridgePlot PlotFlowProofs.
 From Coq Require Import Sorting.Sorted.
 Open Scope Z_scope.
 
@@ -272,6 +273,44 @@ Example C17_example_color : lut_index 256 40 160 80 = 85 /\ lut_index 256 40 160
                             /\ lut_index 256 40 160 39 = 256 /\ lut_index 256 40 160 161 = 257.
 Proof. vm_compute. repeat split; reflexivity. Qed.
 
+(* the data path regenerated from xyzpy/plot/core.py on every run (GenPlot: which arrays decide the finite-mask
+   of a series, which arrays it is applied to, what a histogram is fed, how the heat-map mesh is oriented) is the
+   modelled one, and interpreting it gives exactly the figures the theorems above speak about: the correspondence
+   check evaluates fig_*_flow on the REGENERATED description *)
+Theorem C17_generated_flow :
+  GenPlot.gen_plot_flow = PlotFlow.model_plot_flow
+  /\ GenPlot.gen_plot_sources_checked = true /\ GenPlot.gen_plot_helpers_pinned = true.
+Proof. exact (conj BridgePlot.bridge_plot_flow BridgePlot.bridge_plot_sources). Qed.
+
+Theorem C17_flow_is_model :
+  (forall sp, PlotFlow.fig_lines_flow GenPlot.gen_plot_flow sp = fig_lines sp)
+  /\ (forall sp edges scale, PlotFlow.fig_hist_flow GenPlot.gen_plot_flow sp edges scale = fig_hist sp edges scale)
+  /\ (forall sp v xd yd lo hi wc,
+        PlotFlow.fig_heat_flow GenPlot.gen_plot_flow sp v xd yd lo hi wc = fig_heat sp v xd yd lo hi wc).
+Proof.
+  rewrite BridgePlot.bridge_plot_flow. split; [|split]; intros.
+  - apply PlotFlowProofs.fig_lines_flow_model.
+  - apply PlotFlowProofs.fig_hist_flow_model.
+  - apply PlotFlowProofs.fig_heat_flow_model.
+Qed.
+
+(* sensitivity: a data path whose mask forgets y, or which does not apply the mask to a companion array, or
+   transposes the mesh the other way, is a different figure on a concrete dataset *)
+Definition flow_mask_x_only := PlotFlow.mk_plot_flow [PlotFlow.KX] [PlotFlow.KX; PlotFlow.KY; PlotFlow.KC; PlotFlow.KYE; PlotFlow.KXE] [PlotFlow.KX] [PlotFlow.KY; PlotFlow.KX].
+Definition flow_mesh_xy := PlotFlow.mk_plot_flow [PlotFlow.KX; PlotFlow.KY] [PlotFlow.KX; PlotFlow.KY; PlotFlow.KC; PlotFlow.KYE; PlotFlow.KXE] [PlotFlow.KX] [PlotFlow.KX; PlotFlow.KY].
+Definition flow_ds : dset :=
+  mkds [(1, 3%nat); (2, 2%nat)] [(1, mkvar [1] (cells [4; 8; 12])); (2, mkvar [2] (cells [4; 8]));
+                                 (10, mkvar [2; 1] (cells [16; 0; 20; 24; 28; 32]))].
+Definition flow_spec : spec :=
+  mkspec flow_ds 1 [10] false (Some 2) None None [str "a"; str "b"] (CCycle 10) 256 [] None None
+         (str "") (str "") [] [].
+Lemma C17_flow_sensitive :
+  PlotFlow.fig_lines_flow flow_mask_x_only flow_spec <> fig_lines flow_spec
+  /\ PlotFlow.mesh_flow flow_mesh_xy flow_ds 10 1 2 [] <> mesh flow_ds 10 1 2 [].
+Proof. split; vm_compute; discriminate. Qed.
+
+Print Assumptions C17_generated_flow.
+Print Assumptions C17_flow_is_model.
 Print Assumptions C17_one_series_per_z.
 Print Assumptions C17_points_exact.
 Print Assumptions C17_all_nan_series.
